@@ -39,8 +39,9 @@ def lst(xs):
 
 MOD_NAMES = ["a", "b", "m", "r#mod", "g", "x1", "x10", "x2", "r#fn", "Z"]
 FN_NAMES = ["f", "g", "a", "bench", "r#loop", "x2", "x10", "sort", "m", "F"]
-CUSTOM = ["Grp A", "x::y", "a", "custom", "n.1", "<T>", "r#x", "ü", "a,b", "p-q", "1", "01"]
-STR_VALS = ["a", "b", "ab", "b c", "x::y", "", "ü", "1.5", "01", "1", "10", "2", "-", "a/b", "A", "%", "r#a", "é~"]
+CUSTOM = ["Grp A", "x::y", "a", "custom", "n.1", "<T>", "r#x", "ü", "a,b", "p-q", "1", "01", "two\nlines"]
+STR_VALS = ["a", "b", "ab", "b c", "x::y", "", "ü", "1.5", "01", "1", "10", "2", "-", "a/b", "A", "%", "r#a", "é~",
+            "north\neast", "north\nwest", "cr\rlf"]     # labels with line breaks: the row shows the whole rendering
 CHARS = ["a", "b", "Z", "0", "9", "ü", "-", "%", ";"]
 
 
